@@ -51,7 +51,18 @@ def main(argv=None) -> int:
             # growth of the specification beyond the listed clauses: extra specs that serve this property
             from .extras import EXTRAS
             for name in EXTRAS.get(pid, []):
+                n_known = len(rep.known)
                 importlib.import_module("vh." + name).run_stage(rep)
+                # A growth stage covers behaviour that no listed statement names.  What it records about the unchanged
+                # tree is therefore an OBSERVATION (evidence + DESIGN.md section 8), not a known finding of this property:
+                # it is not printed as KNOWN-FINDING.  (A stage reports rep.violation only for behaviour that breaks the
+                # statement of the property it serves.)
+                obs = rep.known[n_known:]
+                del rep.known[n_known:]
+                if obs:
+                    seen = rep.extra.setdefault("observations_outside_listed_statements", {})
+                    for fid, what in obs:
+                        seen.setdefault(fid, what)
     except MachineryError as ex:
         print(f"MACHINERY-FAILURE property={pid}: {ex}", file=sys.stderr)
         return 2
